@@ -17,6 +17,7 @@ import (
 	"strconv"
 	"strings"
 	"sync"
+	"sync/atomic"
 )
 
 type (
@@ -98,7 +99,23 @@ func (m *RWMutex) report(kind, outer string) {
 	evMu.Unlock()
 }
 
+// Interleave, when set, is called before every lock acquisition (Lock or RLock) that is not itself made from inside an Interleave
+// call.  At that point the calling operation holds no lock of this mutex yet (or has released it), so a harness can run a
+// second operation to completion there: this enumerates the schedules in which another call executes atomically BETWEEN two
+// critical sections of the first one (check-then-act across a lock release) — one preemption at a lock boundary.
+var Interleave func()
+
+var inInterleave int32
+
+func maybeInterleave() {
+	if f := Interleave; f != nil && atomic.CompareAndSwapInt32(&inInterleave, 0, 1) {
+		f()
+		atomic.StoreInt32(&inInterleave, 0)
+	}
+}
+
 func (m *RWMutex) RLock() {
+	maybeInterleave()
 	g := goid()
 	m.hmu.Lock()
 	if m.readers == nil {
@@ -130,6 +147,7 @@ func (m *RWMutex) RUnlock() {
 }
 
 func (m *RWMutex) Lock() {
+	maybeInterleave()
 	g := goid()
 	m.hmu.Lock()
 	held := m.readers[g]
